@@ -504,6 +504,7 @@ class SBlock(Block):
         if self.has_method('init_from_value'):
             self.initdef = kwargs.pop('initdef', UNDEF)
         self._event_active = False      # guard against event recursion
+        self._event_depth = 0           # > 0 while inside event(), even if recursion is enabled
         self._every_output_events = event_tuple(on_every_output)
         # completed Circuit.init_sblock initialization steps (2 in total)
         # value -1 or -2 means initialization step 1 or 2 respectively is in progress
@@ -515,18 +516,27 @@ class SBlock(Block):
         if value is UNDEF:
             raise ValueError("Output value must not be <UNDEF>")
         previous = self._output
-        if previous == value:
-            if not self._every_output_events:
-                return
-            self.log_debug("output: %s (unchanged)", value)
-        else:
-            self.log_debug("output: %s -> %s", previous, value)
-            self._output = value
-            self.circuit.sblock_queue.put_nowait(self)
-            for event in self._output_events:
+        # A block inside event() must not accept events while sending its own ones.
+        # This matters when the recursion guard is temporarily open (_enable_event),
+        # e.g. when the output is set by an initialization routine invoked from event().
+        guard_saved = self._event_active
+        if self._event_depth > 0:
+            self._event_active = True
+        try:
+            if previous == value:
+                if not self._every_output_events:
+                    return
+                self.log_debug("output: %s (unchanged)", value)
+            else:
+                self.log_debug("output: %s -> %s", previous, value)
+                self._output = value
+                self.circuit.sblock_queue.put_nowait(self)
+                for event in self._output_events:
+                    event.send(self, trigger='output', previous=previous, value=value)
+            for event in self._every_output_events:
                 event.send(self, trigger='output', previous=previous, value=value)
-        for event in self._every_output_events:
-            event.send(self, trigger='output', previous=previous, value=value)
+        finally:
+            self._event_active = guard_saved
 
     def _event(self, etype: str|EventType, data: Mapping[str, Any]) -> Any:
         """
@@ -565,6 +575,7 @@ class SBlock(Block):
         if self._event_active:
             raise EdzedCircuitError(f"{self}: Forbidden recursive event() call")
         self._event_active = True
+        self._event_depth += 1
         try:
             while isinstance(etype, EventCond):
                 cond_etype = etype.etrue if data.get('value') else etype.efalse
@@ -616,6 +627,7 @@ class SBlock(Block):
                 raise
             return retval
         finally:
+            self._event_depth -= 1
             self._event_active = False
 
     # property + class is an awesome combination, isn't it?
